@@ -82,8 +82,9 @@ def run(ctx, res):
         return
     adt = sdes[0]
     d = D.impl_item(PARSER_TRAIT, adt, "parse")
-    chunk_parse = find(F, "SdesChunk::<'a>::parse")
-    item_parse = find(F, "SdesItem::<'a>::parse")
+    # the chunk and item sub-parsers: found by what they return (their names are private)
+    chunk_parse = D.by_signature(["&[u8]"], "Result<(sdes::SdesChunk<", "sdes::")
+    item_parse = D.by_signature(["&[u8]"], "Result<(sdes::SdesItem<", "sdes::")
     res.floor("chunk and item sub-parsers", len(chunk_parse) + len(item_parse), 2)
     n_item = n_chunk = 0
     # ------------------------------------------------------------------ item parser on its own
